@@ -127,6 +127,20 @@ def sfloat(x=0.0):
     return builtins.float(x)
 
 
+def sint(x=0, *a):
+    """int(x): truncation toward zero.  On a symbolic real: fresh integer k with
+    x>=0 -> k <= x < k+1, x<0 -> k-1 < x <= k."""
+    if isinstance(x, SNum):
+        if x.is_int:
+            return x
+        c = cur()
+        k = c.fresh('trunc', 'int')
+        kr = z3.ToReal(k)
+        c.lemma(z3.If(x.t >= 0, z3.And(kr <= x.t, x.t < kr + 1), z3.And(kr - 1 < x.t, x.t <= kr)))
+        return SNum(k)
+    return builtins.int(x, *a)
+
+
 def ssum(seq, start=0):
     s = start
     for v in seq:
@@ -186,6 +200,8 @@ def sround(x, ndigits=None, numpy_style=False):
     if ndigits is None:
         k = c.fresh('rnd', 'int')
         c.lemma(z3.And(z3.ToReal(k) - xt <= z3.RealVal('1/2'), xt - z3.ToReal(k) <= z3.RealVal('1/2')))
+        # models used for replay / validation stay away from rounding ties
+        c.robust.append(z3.And(z3.ToReal(k) - xt <= z3.RealVal('49/100'), xt - z3.ToReal(k) <= z3.RealVal('49/100')))
         return SNum(k)
     f = _round_uf(ndigits, numpy_style)
     app = f(xt)
@@ -193,6 +209,7 @@ def sround(x, ndigits=None, numpy_style=False):
     apps = c.uf_apps.setdefault(('round', ndigits, numpy_style), [])
     if not any(a.eq(xt) for a, _ in apps):
         c.lemma(z3.And(app - xt <= half, xt - app <= half))
+        c.robust.append(z3.And(app - xt <= half * z3.RealVal('49/50'), xt - app <= half * z3.RealVal('49/50')))
         # the rounded value is a multiple of 10**-n (makes "rounding dropped" models
         # reproducible on real floats)
         if LEMMAS['round_grid']:
